@@ -25,6 +25,11 @@ def isAlwaysAt (ss : List Stmt) (k : Nat) : Bool :=
   | some s => s.kind == .always
   | none => false
 
+def isExtAt (ss : List Stmt) (k : Nat) : Bool :=
+  match ss[k]? with
+  | some s => s.kind == .ext
+  | none => false
+
 /-- every statement in positions `lo..hi` is a loop statement -/
 def loopsBetween (ss : List Stmt) (lo hi : Nat) : Bool :=
   (List.range (hi + 1)).all (fun j => decide (j < lo) || isLoopId ss j)
@@ -35,9 +40,11 @@ def okPair (ss : List Stmt) (k1 k2 : Nat) : Bool := decide (k1 < k2) || loopsBet
 
 /-- **Well-formed history**: the list of executed defer statements (oldest first) can be produced by
     structured control flow over the layout `ss` — statements execute in layout order, and only loop
-    statements of one run repeat or interleave. -/
+    statements of one run repeat or interleave. Defers of range-over-func bodies (`ext` entries, which execute
+    at the position of their range loop, not at their position in the layout) are outside this notion. -/
 def WF {α : Type} (ss : List Stmt) (hist : List (Nat × α)) : Prop :=
-  (hist.map (·.1)).Pairwise (fun k1 k2 => okPair ss k1 k2 = true) ∧ ∀ k ∈ hist.map (·.1), k < ss.length
+  (hist.map (·.1)).Pairwise (fun k1 k2 => okPair ss k1 k2 = true) ∧
+    ∀ k ∈ hist.map (·.1), k < ss.length ∧ isExtAt ss k = false
 
 instance {α : Type} (ss : List Stmt) (hist : List (Nat × α)) : Decidable (WF ss hist) := by
   unfold WF; infer_instance
@@ -494,19 +501,19 @@ theorem slots_isEmpty_take {ss : List Stmt} {k : Nat} (hk : k < ss.length) :
     | cons a t => simp [indexed] at h
 
 theorem isLoopId_of_kind {ss : List Stmt} {k : Nat} {s : Stmt} (hs : ss[k]? = some s) :
-    isLoopId ss k = (s.kind == .loop) := by simp [isLoopId, hs, Stmt.isLoop]
+    isLoopId ss k = (s.kind == .loop || s.kind == .ext) := by simp [isLoopId, hs, Stmt.isLoop]
 
 theorem replay_spec (ss : List Stmt) (exec : Call α → σ → Out ε × σ) (bits : Nat)
     (hN : NoNodelessBetweenLoops ss) :
     ∀ (m : Nat), m ≤ ss.length → ∀ (R : List (Nat × α)) (g : Bool) (st : σ) (log : List (Call α)) (re : Bool),
-      Desc ss R → (∀ e ∈ R, e.1 < m) → (g = true → headNonLoop ss R) →
+      Desc ss R → (∀ e ∈ R, e.1 < m) → (∀ e ∈ R, isExtAt ss e.1 = false) → (g = true → headNonLoop ss R) →
       (∀ k, k < m → isAlwaysAt ss k = true → k ∈ R.map (·.1)) →
       (∀ k, k < m → isCondAt ss k = true → (bits.testBit (bitOf ss k) = true ↔ k ∈ R.map (·.1))) →
       view (replay ss exec bits (slots (ss.take m)) g ⟨nodesOf ss R, st, log, re⟩) = Spec.unwind ss exec R st log := by
   intro m
   induction m with
   | zero =>
-    intro _ R g st log re _ hB _ _ _
+    intro _ R g st log re _ hB _ _ _ _
     have : R = [] := by
       cases R with
       | nil => rfl
@@ -514,7 +521,7 @@ theorem replay_spec (ss : List Stmt) (exec : Call α → σ → Out ε × σ) (b
     subst this
     simp [slots, indexed, replay, view, Fin.esc, Spec.unwind, nodesOf]
   | succ k ih =>
-    intro hm R g st log re hD hB hG hA hC
+    intro hm R g st log re hD hB hX hG hA hC
     have hk : k < ss.length := by omega
     obtain ⟨s, hs⟩ : ∃ s, ss[k]? = some s := ⟨ss[k], List.getElem?_eq_getElem hk⟩
     rw [slots_take_succ ss k s hs]
@@ -528,7 +535,8 @@ theorem replay_spec (ss : List Stmt) (exec : Call α → σ → Out ε × σ) (b
       subst hR
       apply afterCall_spec ss exec hs
       · intro st' log' re'
-        apply ihk R1 false st' log' re' (List.pairwise_cons.mp hD).2 hB1 (by intro h; cases h)
+        apply ihk R1 false st' log' re' (List.pairwise_cons.mp hD).2 hB1
+          (fun e he => hX e (List.mem_cons_of_mem _ he)) (by intro h; cases h)
         · intro k' hk' ha
           have := hA k' (by omega) ha
           simp only [List.map_cons, List.mem_cons] at this
@@ -558,7 +566,7 @@ theorem replay_spec (ss : List Stmt) (exec : Call α → σ → Out ε × σ) (b
       | true =>
         simp only [if_true]
         have hB' := bound_of_headNonLoop hD (hG rfl) hB hlk
-        exact ihk R true st log re hD hB' hG (fun k' hk' => hA k' (by omega)) (fun k' hk' => hC k' (by omega))
+        exact ihk R true st log re hD hB' hX hG (fun k' hk' => hA k' (by omega)) (fun k' hk' => hC k' (by omega))
       | false =>
         simp only [Bool.false_eq_true, if_false]
         rcases drain_spec ss exec hN k hlk R st log re hD (fun e he => by have := hB e he; omega) with
@@ -582,7 +590,7 @@ theorem replay_spec (ss : List Stmt) (exec : Call α → σ → Out ε × σ) (b
           have hD' : Desc ss R' := List.Pairwise.sublist h5.sublist hD
           have hBR' : ∀ e ∈ R', e.1 < k + 1 := fun e he => hB e (h5.subset he)
           have hB' := bound_of_headNonLoop hD' h4 hBR' hlk
-          apply ihk R' true st' log' re' hD' hB' (fun _ => h4)
+          apply ihk R' true st' log' re' hD' hB' (fun e he => hX e (h5.subset he)) (fun _ => h4)
           · intro k' hk' ha
             have hnl : isLoopId ss k' = false := by
               unfold isAlwaysAt at ha; unfold isLoopId
@@ -611,7 +619,7 @@ theorem replay_spec (ss : List Stmt) (exec : Call α → σ → Out ε × σ) (b
           | false => rfl
           | true => exact absurd ((hC k (by omega) hck).mp hq) hmem
         simp only [hb, Bool.false_eq_true, if_false]
-        apply ihk R false st log re hD _ (by intro h; cases h) (fun k' hk' => hA k' (by omega)) (fun k' hk' => hC k' (by omega))
+        apply ihk R false st log re hD _ hX (by intro h; cases h) (fun k' hk' => hA k' (by omega)) (fun k' hk' => hC k' (by omega))
         intro e he
         have h1 := hB e he
         have h2 : e.1 ≠ k := by
@@ -622,6 +630,19 @@ theorem replay_spec (ss : List Stmt) (exec : Call α → σ → Out ε × σ) (b
       have hak : isAlwaysAt ss k = true := by simp [isAlwaysAt, hs, hkind]
       simp only [replay, hkind]
       exact called hnl (hA k (by omega) hak)
+    | ext =>
+      -- not a replay statement; by hypothesis it was never executed, so nothing of it is on the list
+      simp only [replay, hkind]
+      have hxk : isExtAt ss k = true := by simp [isExtAt, hs, hkind]
+      apply ihk R g st log re hD _ hX hG (fun k' hk' => hA k' (by omega)) (fun k' hk' => hC k' (by omega))
+      intro e he
+      have h1 := hB e he
+      have h2 : e.1 ≠ k := by
+        intro h
+        have := hX e he
+        rw [h, hxk] at this
+        cases this
+      omega
 
 end refine
 
@@ -717,6 +738,7 @@ theorem replay_popped (ss : List Stmt) (exec : Call α → σ → Out ε × σ) 
     | always =>
       simp only []
       rw [afterCall_popped _ _ (ih false), callDefer_popped]
+    | ext => simp only []; exact ih g u
 
 /-- number of node-less calls of statement `k` in a log -/
 def nodelessCalls (k : Nat) (log : List (Call α)) : Nat :=
@@ -814,6 +836,7 @@ theorem replay_nodeless (ss : List Stmt) (exec : Call α → σ → Out ε × σ
       have h1 := afterCall_nodeless rest.isEmpty (replay ss exec bits rest false) k _ (ih false) (callDefer exec i s u)
       have h2 := callDefer_nodeless exec i s u k
       omega
+    | ext => simp only []; have := ih g u; omega
 
 theorem indexed_filter_le (k : Nat) : ∀ (l : List Stmt) (i : Nat),
     ((indexed i l).filter fun p => p.1 == k).length ≤ 1 ∧
@@ -1000,6 +1023,10 @@ theorem replay_cond_clear (ss : List Stmt) (exec : Call α → σ → Out ε × 
         · left; exact h
         · right; rw [h]; exact hik
       · right; exact h
+    | ext =>
+      rw [hkind] at hc
+      simp only [] at hc
+      exact ih g u hrest c hc
 
 /-- the same deferred calls, except that a panic of a call is not reported to the frame -/
 def calm (exec : Call α → σ → Out ε × σ) : Call α → σ → Out ε × σ := fun c st =>
@@ -1113,6 +1140,7 @@ theorem replay_calm (ss : List Stmt) (exec : Call α → σ → Out ε × σ) (b
     | always =>
       simp only []
       exact step
+    | ext => simp only []; exact ih g u u' h1 h2 h3
 
 end uncond
 
